@@ -17,6 +17,7 @@ import (
 	"fmt"
 	"os"
 	"path/filepath"
+	"regexp"
 	"runtime"
 	"sort"
 	"strings"
@@ -98,6 +99,35 @@ func startWatchdog(limit time.Duration) {
 }
 
 func register(id string, p Prop) { props[id] = p }
+
+// execGuarded runs one history. Exec implementations guard their library calls themselves; should a panic
+// of library origin escape nevertheless, it is recorded on the first event not yet executed and the rest of
+// the history is marked skipped (a panic of harness code still aborts the run).
+func execGuarded(p Prop, h []Ev) []Ev {
+	var evs []Ev
+	pan := guard(func() { evs = p.Exec(h) })
+	if pan == "" {
+		return evs
+	}
+	if strings.HasPrefix(pan, "harness-panic") {
+		die("%s", pan)
+	}
+	marked := false
+	for _, e := range h {
+		if _, done := e["panic"]; done && !marked {
+			continue
+		}
+		if !marked {
+			e["panic"], marked = pan, true
+		} else {
+			e["panic"] = "skipped-after-panic"
+		}
+	}
+	if !marked && len(h) > 0 {
+		h[len(h)-1]["panic"] = pan
+	}
+	return h
+}
 
 // RowGenProp: histories whose inputs are chosen by the specification (rows printed by a Gen_* module).
 type RowGenProp interface {
@@ -200,7 +230,7 @@ func doGen(id string, p Prop, tier string, seed int64, out string, nshards int) 
 	startWatchdog(hangLimit())
 	p.Gen(tier, seed, func(h []Ev) {
 		tick(h)
-		evs := p.Exec(h)
+		evs := execGuarded(p, h)
 		k := hid % nshards
 		enc := json.NewEncoder(files[k])
 		for i, e := range evs {
@@ -338,7 +368,7 @@ func doReplay(p Prop, in, out string) {
 	startWatchdog(hangLimit())
 	for hid, h := range hs {
 		tick(h)
-		res := p.Exec(h)
+		res := execGuarded(p, h)
 		for i, e := range res {
 			e["h"] = hid
 			e["i"] = i
@@ -357,7 +387,28 @@ func doTable(tp TableProp, in, out, tier string, seed int64) {
 	wdOut = filepath.Dir(out)
 	os.Remove(filepath.Join(wdOut, "hang.ndjson"))
 	startWatchdog(2 * hangLimit())
-	tp.Table(rows, tier, seed, rep)
+	// Rows are independent: when the library panics inside a row, the panic is recorded as a mismatch
+	// of that row and the comparison resumes with the next one (a panic of harness code aborts).
+	for start := 0; start < len(rows); {
+		before := atomic.LoadInt64(&wdTick)
+		pan := guard(func() { tp.Table(rows[start:], tier, seed, rep) })
+		if pan == "" {
+			break
+		}
+		if strings.HasPrefix(pan, "harness-panic") {
+			die("%s", pan)
+		}
+		done := int(atomic.LoadInt64(&wdTick) - before) // rows started, the last one panicked
+		if done < 1 {
+			die("panic outside a row: %s", pan)
+		}
+		idx := start + done - 1
+		rep.Mismatches = append(rep.Mismatches, Ev{"op": "table-row", "reason": normPanic(pan), "row": rows[idx]})
+		if len(rep.Mismatches) > 200 {
+			break
+		}
+		start = idx + 1
+	}
 	if len(rep.Mismatches) > 200 {
 		rep.Mismatches = rep.Mismatches[:200]
 	}
@@ -497,6 +548,11 @@ func guard(f func()) (perr string) {
 	f()
 	return ""
 }
+
+var digitsRe = regexp.MustCompile(`[0-9]+`)
+
+// normPanic: panic text with numbers abstracted, so that one defect gives one signature
+func normPanic(p string) string { return digitsRe.ReplaceAllString(p, "N") }
 
 // asMap views a nested JSON object whether it was built in-process (Ev) or decoded.
 func asMap(v interface{}) map[string]interface{} {
